@@ -232,43 +232,56 @@ Definition wire_ret (bs : list N) : option Z :=
   end.
 
 (* ---------- schedules: TarsServer.invoke with a handle timeout, as a transition system ----------
-   Three parties: the goroutine that runs Protocol.Invoke (Start = it has decoded the request and stored the
-   packet type in the request's Current; Return = it has assigned rsp and called cancelFunc), the deadline of
-   invokeCtx (Fire), and the handler (Wake = it gets past <-invokeCtx.Done() and picks rsp or, if rsp is still
-   empty, InvokeTimeout(pkg); Write = it reads the packet type from the Current and writes unless one-way).
-   [h_inv] is what Invoke computes for this request (invoke above); the label sequence is the scheduler's choice. *)
+   Three parties: the goroutine that runs Protocol.Invoke (Start = it has decoded the request and passed the
+   select on ctx.Done(): if the deadline has already passed it takes that branch, answers with the queue-timeout code
+   and does not dispatch; Return = it has stored the packet type in the request's Current, assigned rsp and called
+   cancelFunc), the deadline of invokeCtx (Fire), and the handler (Wake = it gets past <-invokeCtx.Done() and picks
+   rsp or, if rsp is still empty, InvokeTimeout(pkg) - which is empty for a one-way request; Write = it reads the
+   packet type from the Current and writes unless that is one-way or there is nothing to write).
+   [p] is what Invoke computes for this request when it is entered in time (invoke above); the label sequence is the
+   scheduler's choice. *)
 Inductive hlabel := LStart | LReturn | LFire | LWake | LWrite.
-Record hstate := { s_started : bool; s_returned : bool; s_fired : bool;
-                   s_picked : option reply; s_written : option (list reply) }.
+Record hstate := { s_started : bool; s_late : bool; s_returned : bool; s_fired : bool;
+                   s_picked : option (list reply); s_written : option (list reply) }.
 Definition hinit : hstate :=
-  {| s_started := false; s_returned := false; s_fired := false; s_picked := None; s_written := None |}.
+  {| s_started := false; s_late := false; s_returned := false; s_fired := false; s_picked := None; s_written := None |}.
+
+(* Invoke entered after the deadline: the ctx.Done() branch *)
+Definition late_reply (r : request) : reply := with_ret (base_reply r) c_TARSSERVERQUEUETIMEOUT timeout_text.
+(* Protocol.InvokeTimeout *)
+Definition timeout_replies (r : request) : list reply :=
+  if oneway r then [] else [with_ret (base_reply r) 1 timeout_text].
 
 Definition hstep (r : request) (p : reply) (s : hstate) (l : hlabel) : option hstate :=
   match l with
   | LStart => if s_started s then None else
-      Some {| s_started := true; s_returned := s_returned s; s_fired := s_fired s; s_picked := s_picked s; s_written := s_written s |}
+      Some {| s_started := true; s_late := s_fired s; s_returned := s_returned s; s_fired := s_fired s;
+              s_picked := s_picked s; s_written := s_written s |}
   | LReturn => if s_started s && negb (s_returned s) then
-      Some {| s_started := true; s_returned := true; s_fired := s_fired s; s_picked := s_picked s; s_written := s_written s |}
+      Some {| s_started := true; s_late := s_late s; s_returned := true; s_fired := s_fired s;
+              s_picked := s_picked s; s_written := s_written s |}
       else None
   | LFire => if s_fired s then None else
-      Some {| s_started := s_started s; s_returned := s_returned s; s_fired := true; s_picked := s_picked s; s_written := s_written s |}
+      Some {| s_started := s_started s; s_late := s_late s; s_returned := s_returned s; s_fired := true;
+              s_picked := s_picked s; s_written := s_written s |}
   | LWake =>
       match s_picked s with
       | Some _ => None
       | None =>
           if s_returned s || s_fired s then
-            Some {| s_started := s_started s; s_returned := s_returned s; s_fired := s_fired s;
-                    s_picked := Some (if s_returned s then p else with_ret (base_reply r) 1 timeout_text);
+            Some {| s_started := s_started s; s_late := s_late s; s_returned := s_returned s; s_fired := s_fired s;
+                    s_picked := Some (if s_returned s then [if s_late s then late_reply r else p] else timeout_replies r);
                     s_written := s_written s |}
           else None
       end
   | LWrite =>
       match s_picked s, s_written s with
       | Some x, None =>
-          (* current.GetPacketTypeFromContext: the request's packet type once Invoke has stored it, 0 before *)
-          let pt := if s_started s then q_ptype r else 0%Z in
-          Some {| s_started := s_started s; s_returned := s_returned s; s_fired := s_fired s; s_picked := s_picked s;
-                  s_written := Some (if (pt =? c_TARSONEWAY)%Z then [] else [x]) |}
+          (* current.GetPacketTypeFromContext: the request's packet type once Invoke has returned, 0 before *)
+          let pt := if s_returned s then q_ptype r else 0%Z in
+          Some {| s_started := s_started s; s_late := s_late s; s_returned := s_returned s; s_fired := s_fired s;
+                  s_picked := s_picked s;
+                  s_written := Some (if (pt =? c_TARSONEWAY)%Z then [] else x) |}
       | _, _ => None
       end
   end.
@@ -336,7 +349,17 @@ Fixpoint take_first {A} (f : A -> bool) (l : list A) : option (list A) :=
 
 (* [k_counted]: the script's function is one whose entries the servant logs per request (act); for the others
    (void function, unknown function) the count is not observable per request *)
-Record c10_req := { k_pkg : hexs; k_queued : N; k_run : hrun; k_alts : list (N * N); k_counted : bool; k_invoked : N }.
+(* recorded events of one request (sched scenarios: the server's protocol is a recording wrapper of the real one):
+   ES = Protocol.Invoke entered, ER = it returned, ET = InvokeTimeout called (the handler woke on the deadline and found
+   rsp empty). The trace is validated against the transition system: the label sequence it stands for must be a run,
+   and what that run writes must be what was observed. *)
+Inductive hevent := ES | ER | ET.
+Definition labels_of_trace (evs : list hevent) : list hlabel :=
+  flat_map (fun e => match e with ES => [LStart] | ER => [LReturn] | ET => [LFire; LWake; LWrite] end) evs ++
+  (if existsb (fun e => match e with ET => true | _ => false end) evs then [] else [LWake; LWrite]).
+
+Record c10_req := { k_pkg : hexs; k_queued : N; k_run : hrun; k_alts : list (N * N); k_trace : option (list hevent);
+                    k_counted : bool; k_invoked : N }.
 Record c10_case := { k_cfg : config; k_reqs : list c10_req; k_obs : list hexs }.
 
 Definition is_disp_err (h : hrun) : bool := match h_res h with HFail DispErr => true | _ => false end.
@@ -355,7 +378,24 @@ Fixpoint c10_consume (cfg : config) (reqs : list c10_req) (obs : list (option ((
       | None => false
       | Some r =>
           existsb (fun qd : N * N =>
-            let '(rs, n) := server_step (fun _ => {| h_res := h_res (k_run k); h_dur := snd qd |}) cfg r (fst qd) in
+            match
+              match k_trace k with
+              | None => Some (server_step (fun _ => {| h_res := h_res (k_run k); h_dur := snd qd |}) cfg r (fst qd))
+              | Some evs =>
+                  let '(o, p, n, _) := invoke (fun _ => k_run k) r (fst qd) in
+                  let fired := existsb (fun e => match e with ET => true | _ => false end) evs in
+                  match hrun_labels r p hinit (labels_of_trace evs) with
+                  | Some s => match s_written s with
+                              | Some l => Some (map (fun x => (if fired then FromHandleTimeout else o, x)) l,
+                                                if s_late s then O else n)
+                              | None => None   (* not a complete run *)
+                              end
+                  | None => None               (* not a run of the transition system *)
+                  end
+              end
+            with
+            | None => false
+            | Some (rs, n) =>
             ((if k_counted k then N.of_nat n else 0) =? k_invoked k) &&
             (fix go (rs : list (origin * reply)) (obs : list (option ((bool * reply) * list N))) : bool :=
                match rs with
@@ -367,7 +407,8 @@ Fixpoint c10_consume (cfg : config) (reqs : list c10_req) (obs : list (option ((
                    | Some obs' => go rs' obs'
                    | None => false
                    end
-               end) rs obs)
+               end) rs obs
+            end)
             (match k_alts k with [] => [(k_queued k, h_dur (k_run k))] | alts => alts end)
       end
   end.
